@@ -109,7 +109,7 @@ class Binding:
     def __init__(self, mod, name, owner=None):
         self.mod, self.name, self.owner = mod, name, owner     # owner: ClassDef for class-level attributes
         self.values = []          # (stmt, value expression or None)
-        self.kind, self.flat, self.note = "imm", True, ""
+        self.kind, self.nest, self.note = "imm", 0, ""
         self.alias_of = None
         self.line = None
         self.results = []         # (verdict, why) of every use inside functions
@@ -235,133 +235,164 @@ class Analysis:
         stmts(m.tree.body, m.bindings, None)
 
     # ------------------------------------------------------------------ kinds of import-time values
+    @staticmethod
+    def nest_of(ks):
+        """nesting of a container whose elements have the kinds ks: 1 + deepest element, None when an element is unknown"""
+        n = 0
+        for k in ks:
+            if k[0] in ("imm", "handle"):
+                continue
+            if k[0] in ("container", "alias") and k[1] is not None:
+                n = max(n, k[1])
+            else:
+                return None
+        return n + 1
+
     def kind_of(self, e, m, depth=0):
-        """(kind, flat, note); kind in imm | handle | container | iterator | object | alias"""
+        """(kind, nest, note); kind in imm | handle | container | iterator | object | alias.
+        nest: 0 = immutable value, k >= 1 = container whose elements have nest <= k-1, None = unknown object graph"""
         if e is None or depth > 6:
-            return ("object", False, "unknown value")
+            return ("object", None, "unknown value")
         if isinstance(e, (ast.FunctionDef, ast.AsyncFunctionDef, ast.ClassDef, ast.Lambda)):
-            return ("imm", True, "function/class")
+            return ("imm", 0, "function/class")
         if isinstance(e, (ast.Constant, ast.JoinedStr)):
-            return ("imm", True, "constant")
+            return ("imm", 0, "constant")
         if isinstance(e, (ast.List, ast.Set)):
-            ks = [self.kind_of(x, m, depth + 1) for x in e.elts]
-            return ("container", all(k[0] in ("imm", "handle") for k in ks), type(e).__name__.lower() + " literal")
+            ks = [self.kind_of(x.value if isinstance(x, ast.Starred) else x, m, depth + 1) for x in e.elts]
+            if any(isinstance(x, ast.Starred) for x in e.elts):
+                ks = [(k[0], (k[1] - 1) if k[1] else k[1], k[2]) if k[0] in ("container", "alias") and k[1] else k for k in ks]
+            return ("container", self.nest_of(ks), type(e).__name__.lower() + " literal")
         if isinstance(e, ast.Tuple):
             ks = [self.kind_of(x, m, depth + 1) for x in e.elts]
             if all(k[0] in ("imm", "handle") for k in ks):
-                return ("imm", True, "tuple of immutables")
-            return ("container", False, "tuple with mutable elements")
+                return ("imm", 0, "tuple of immutables")
+            return ("container", self.nest_of(ks), "tuple with mutable elements")
         if isinstance(e, ast.Dict):
             ks = [self.kind_of(x, m, depth + 1) for x in e.values if x is not None]
-            return ("container", all(k[0] in ("imm", "handle") for k in ks) and all(k is not None for k in e.keys), "dict literal")
+            return ("container", self.nest_of(ks) if all(k is not None for k in e.keys) else None, "dict literal")
         if isinstance(e, (ast.ListComp, ast.SetComp, ast.DictComp)):
             elt = e.value if isinstance(e, ast.DictComp) else e.elt
-            k = self.kind_of(elt, m, depth + 1) if isinstance(elt, (ast.Constant, ast.JoinedStr, ast.Tuple)) else ("object", False, "")
-            return ("container", k[0] == "imm", "comprehension")
+            k = self.kind_of(elt, m, depth + 1) if isinstance(elt, (ast.Constant, ast.JoinedStr, ast.Tuple)) else ("object", None, "")
+            return ("container", 1 if k[0] == "imm" else None, "comprehension")
         if isinstance(e, ast.GeneratorExp):
-            return ("iterator", False, "generator expression")
+            return ("iterator", None, "generator expression")
         if isinstance(e, ast.Call):
             d = dotted(e.func)
             last = d.split(".")[-1] if d else (e.func.attr if isinstance(e.func, ast.Attribute) else None)
             if d == "<unpacked>" or d == "<loop variable>":
-                return ("object", False, d)
+                return ("object", None, d)
             if isinstance(e.func, ast.Attribute) and d is None:
                 recv = self.kind_of(e.func.value, m, depth + 1)
                 if recv[0] in ("imm", "handle"):
                     if last in STR_TO_LIST:
-                        return ("container", True, "list of strings from .%s()" % last)
-                    return ("handle", True, "method .%s() of an immutable value" % last)
-                return ("object", False, "result of .%s()" % last)
+                        return ("container", 1, "list of strings from .%s()" % last)
+                    return ("handle", 0, "method .%s() of an immutable value" % last)
+                return ("object", None, "result of .%s()" % last)
             if last == "frozenset":
-                return ("imm", True, "frozenset")
+                return ("imm", 0, "frozenset")
             if last in CONTAINER_CTORS:
                 if not e.args and not e.keywords:
-                    return ("container", True, "empty %s()" % last)
-                ks = [self.kind_of(x, m, depth + 1) for x in e.args] + [self.kind_of(k.value, m, depth + 1) for k in e.keywords]
+                    return ("container", 1, "empty %s()" % last)
                 if last == "defaultdict":
-                    return ("container", False, "defaultdict")
-                return ("container", all(k[1] for k in ks) and all(k[0] in ("imm", "handle", "container") for k in ks), "%s(...)" % last)
+                    return ("container", None, "defaultdict")
+                ks = [self.kind_of(x, m, depth + 1) for x in e.args]
+                kw = [self.kind_of(k.value, m, depth + 1) for k in e.keywords]
+                ns = [k[1] if k[0] in ("container", "alias") else (1 if k[0] in ("imm", "handle") else None) for k in ks] + [self.nest_of([k]) for k in kw]
+                return ("container", None if any(n is None for n in ns) else max(ns + [1]), "%s(...)" % last)
             if last in FIELD_CTORS:
                 for k in e.keywords:
                     if k.arg == "default":
                         kk = self.kind_of(k.value, m, depth + 1)
                         if kk[0] not in ("imm", "handle"):
                             return (kk[0], kk[1], "field default shared by all instances: " + kk[2])
-                return ("imm", True, "attrs/dataclass field declaration")
+                return ("imm", 0, "attrs/dataclass field declaration")
             if last in ITER_CTORS and last not in HANDLE_CTORS:
-                return ("iterator", False, "%s(...) object with internal position/state" % last)
+                return ("iterator", None, "%s(...) object with internal position/state" % last)
             if last in HANDLE_CTORS or last in STR_TO_STR:
-                return ("handle", True, "%s(...)" % (d or last))
+                return ("handle", 0, "%s(...)" % (d or last))
             if last in STR_TO_LIST:
-                return ("container", True, "list of strings from .%s()" % last)
-            return ("object", False, "instance/result of %s(...)" % (d or last or "?"))
+                return ("container", 1, "list of strings from .%s()" % last)
+            return ("object", None, "instance/result of %s(...)" % (d or last or "?"))
         if isinstance(e, ast.Subscript):
             d = dotted(e.value) or ""
             if d.split(".")[-1] in TYPING_NAMES or d.split(".")[0] in ("typing", "t"):
-                return ("imm", True, "typing construct")
+                return ("imm", 0, "typing construct")
             k = self.kind_of(e.value, m, depth + 1)
-            if k[0] in ("imm", "handle") or (k[0] == "container" and k[1]):
-                return ("handle", True, "element of an immutable value")
-            return ("object", False, "element of a mutable value")
+            if k[0] in ("imm", "handle") or (k[0] in ("container", "alias") and k[1] == 1):
+                return ("handle", 0, "element of an immutable value")
+            if k[0] in ("container", "alias") and k[1]:
+                return ("container", k[1] - 1, "element of a nested container (shared with it)")
+            return ("object", None, "element of a mutable value")
         if isinstance(e, ast.Name):
             if e.id in ("True", "False", "None", "__file__", "__name__"):
-                return ("imm", True, "constant")
+                return ("imm", 0, "constant")
             b = self.lookup(m, e.id)
             if b is not None and b.values and b.values[0][1] is not e:
                 if b.kind == "?":
-                    return ("object", False, "cyclic definition")
+                    return ("object", None, "cyclic definition")
                 self.kind_binding(b)
                 if b.kind in ("imm", "handle"):
-                    return (b.kind, True, "same as " + b.name)
-                return ("alias", b.flat, b)
-            return ("imm", True, "imported / builtin name")
+                    return (b.kind, 0, "same as " + b.name)
+                return ("alias", b.nest, b)
+            return ("imm", 0, "imported / builtin name")
         if isinstance(e, ast.Attribute):
             b = self.lookup_chain(m, e)
             if b is not None:
                 self.kind_binding(b)
                 if b.kind in ("imm", "handle"):
-                    return (b.kind, True, "same as " + b.name)
-                return ("alias", b.flat, b)
-            k = self.kind_of(e.value, m, depth + 1) if not isinstance(e.value, ast.Name) else ("imm", True, "")
+                    return (b.kind, 0, "same as " + b.name)
+                return ("alias", b.nest, b)
+            k = self.kind_of(e.value, m, depth + 1) if not isinstance(e.value, ast.Name) else ("imm", 0, "")
             if k[0] in ("imm", "handle"):
-                return ("handle", True, "attribute of an immutable value / imported module")
-            return ("object", False, "attribute of a mutable value")
+                return ("handle", 0, "attribute of an immutable value / imported module")
+            return ("object", None, "attribute of a mutable value")
         if isinstance(e, (ast.BinOp, ast.BoolOp, ast.UnaryOp, ast.Compare, ast.IfExp)):
             subs = [x for x in ast.iter_child_nodes(e) if isinstance(x, ast.expr)]
             ks = [self.kind_of(x, m, depth + 1) for x in subs]
             kinds = {k[0] for k in ks}
             if kinds <= {"imm", "handle"}:
-                return ("handle" if "handle" in kinds else "imm", True, "expression over immutables")
+                return ("handle" if "handle" in kinds else "imm", 0, "expression over immutables")
             if kinds <= {"imm", "handle", "container", "alias"}:
-                return ("container", all(k[1] for k in ks), "expression over containers")
-            return ("object", False, "expression")
-        return ("object", False, type(e).__name__)
+                ns = [k[1] for k in ks if k[0] in ("container", "alias")]
+                return ("container", None if any(n is None for n in ns) else max(ns), "expression over containers")
+            return ("object", None, "expression")
+        return ("object", None, type(e).__name__)
 
     def kind_binding(self, b):
         if getattr(b, "_kinded", False):
             return
         b._kinded = True
         b.kind = "?"
-        rank = {"imm": 0, "handle": 1, "container": 2, "alias": 2, "iterator": 3, "object": 4}
-        best = ("imm", True, "")
+        rank = {"imm": 0, "handle": 1, "container": 2, "iterator": 3, "object": 4}
+        best = ("imm", 0, "")
         for stmt, v in b.values:
             k = self.kind_of(v, b.mod)
-            if isinstance(stmt, ast.AugAssign):
-                k = (k[0], k[1], k[2]) if k[0] not in ("imm", "handle") else ("imm", True, "augmented at import time")
             if k[0] == "alias":
                 b.alias_of = k[2]
-                k = (k[2].kind, k[2].flat, "alias of %s.%s" % (k[2].mod.name, k[2].qual))
-            if rank.get(k[0], 4) > rank.get(best[0], 0) or (k[0] == best[0] and not k[1]):
-                best = (k[0], k[1] and (best[1] or rank.get(best[0], 0) < 2), k[2])
-        b.kind, b.flat, b.note = best
-        # import-time stores into the container may put mutable elements in
-        if b.kind == "container" and b.flat and b.owner is None:
+                k = (k[2].kind, k[2].nest, "alias of %s.%s" % (k[2].mod.name, k[2].qual))
+            if rank.get(k[0], 4) > rank.get(best[0], 0):
+                best = k
+            elif k[0] == best[0] == "container":
+                best = (k[0], None if (k[1] is None or best[1] is None) else max(k[1], best[1]), best[2])
+        b.kind, b.nest, b.note = best
+        # import-time stores into the container may put deeper values in
+        if b.kind == "container" and b.nest is not None and b.owner is None:
             for n in self.import_time_nodes(b.mod):
-                if isinstance(n, (ast.Subscript, ast.Attribute)) and isinstance(n.ctx, ast.Store) and self.root_name(n) == b.name:
-                    b.flat = False
+                vals = None
+                if isinstance(n, (ast.Assign, ast.AugAssign)):
+                    tg = n.targets if isinstance(n, ast.Assign) else [n.target]
+                    if any(isinstance(t, (ast.Subscript, ast.Attribute)) and self.root_name(t) == b.name for t in tg):
+                        vals = [n.value]
                 if isinstance(n, ast.Call) and isinstance(n.func, ast.Attribute) and n.func.attr in INSERTERS and self.root_name(n.func.value) == b.name:
-                    if not all(self.kind_of(a, b.mod)[0] in ("imm", "handle") for a in n.args):
-                        b.flat = False
+                    vals = list(n.args) + [k.value for k in n.keywords]
+                for v in vals or []:
+                    k = self.kind_of(v, b.mod)
+                    if k[0] in ("imm", "handle"):
+                        continue
+                    if k[0] in ("container", "alias") and k[1] is not None and b.nest is not None:
+                        b.nest = max(b.nest, k[1] + 1)
+                    else:
+                        b.nest = None
 
     def import_time_nodes(self, m):
         stack = list(m.tree.body)
@@ -609,96 +640,142 @@ class Analysis:
     def var_uses(self, fn, name):
         return [n for n in ast.walk(fn) if isinstance(n, ast.Name) and n.id == name and isinstance(n.ctx, ast.Load)]
 
-    def use(self, node, m, kind, flat, depth, what):
+    @staticmethod
+    def elem(kind, nest, levels=1):
+        """(kind, nest) of what is reached `levels` element/attribute steps below a value"""
+        for _ in range(levels):
+            if kind in ("imm", "handle") or nest in (0, 1):
+                return ("imm", 0)
+            if nest is None or kind in ("object", "iterator"):
+                return ("object", None)
+            kind, nest = "container", nest - 1
+        return (kind, nest)
+
+    QUIET_METHODS = ("keys", "index", "count", "issubset", "issuperset", "isdisjoint", "__contains__", "__len__", "join", "format", "startswith", "endswith",
+                     "debug", "info", "warning", "error", "exception", "critical", "log")
+
+    def use(self, node, m, kind, nest, depth, what):
         """verdict for one Load occurrence `node` of a value that is (an alias of) module state.
+        kind: container | copy (a fresh shallow copy: only its elements are shared) | object | iterator | handle | imm
         -> ("read"|"mut"|"escape"|"shared", why[, extra])"""
+        if kind == "imm" or nest == 0:
+            return ("read", "immutable value")
         if depth > MAXDEPTH:
             return ("escape", "alias depth exceeded at %s:%d" % (m.rel, node.lineno))
         top = self.top_chain(node)
         p = parent(top)
         here = "%s:%d" % (m.rel, getattr(node, "lineno", 0))
-        chained = top is not node
-        # stores / deletes through the name
-        if chained and isinstance(top.ctx, (ast.Store, ast.Del)):
-            return ("mut", "%s `%s` at %s" % ("deleted" if isinstance(top.ctx, ast.Del) else "assigned", ast.unparse(top)[:60], here))
-        if isinstance(p, ast.AugAssign) and p.target is top:
-            return ("mut", "augmented assignment `%s` at %s" % (ast.unparse(p)[:60], here))
-        # method call on the value or on something reached through it
-        if isinstance(top, ast.Attribute) and isinstance(p, ast.Call) and p.func is top:
-            meth = top.attr
-            inner = top.value                       # receiver
-            if meth in MUTATORS:
-                return ("mut", "mutating call `%s(...)` at %s" % (ast.unparse(top)[:60], here))
+        levels = 0
+        x = node
+        while x is not top:
+            x = parent(x)
+            levels += 1
+        is_method = isinstance(top, ast.Attribute) and isinstance(p, ast.Call) and p.func is top
+        # stores / deletes through the value
+        stored = levels > 0 and (isinstance(top.ctx, (ast.Store, ast.Del)) or (isinstance(p, ast.AugAssign) and p.target is top))
+        if stored:
+            if kind == "copy" and levels == 1:
+                return ("read", "store into a fresh copy")
             if kind == "handle":
+                return ("mut", "attribute of a module-level handle assigned `%s` at %s" % (ast.unparse(top)[:60], here))
+            return ("mut", "%s `%s` at %s" % ("deleted" if isinstance(top.ctx, ast.Del) else "assigned", ast.unparse(p if isinstance(p, ast.AugAssign) else top)[:60], here))
+        if is_method:
+            meth = top.attr
+            rk, rn = self.elem(kind, nest, levels - 1) if levels > 1 else (kind, nest)       # the receiver
+            if rk == "imm":
+                return ("read", "method of an immutable element")
+            if rk == "handle":
                 return ("read", "method of a handle")
+            if meth in MUTATORS:
+                if rk == "copy":
+                    return ("read", "mutation of a fresh copy")
+                return ("mut", "mutating call `%s(...)` at %s" % (ast.unparse(top)[:60], here))
             if meth in READ_METHODS:
-                if flat or meth in ("keys", "index", "count", "issubset", "issuperset", "isdisjoint", "__contains__", "__len__", "join", "format",
-                                     "startswith", "endswith", "debug", "info", "warning", "error", "exception", "critical", "log"):
+                if meth in self.QUIET_METHODS:
                     return ("read", "read-only method .%s()" % meth)
-                return self.flow(p, m, "object", False, depth, what + " element")     # an element flows out of the call
-            if kind in ("object", "iterator") or inner is not node:
-                return ("mut", "method `%s(...)` of unknown effect on a module-level object at %s" % (ast.unparse(top)[:60], here))
-            return ("mut", "method `%s(...)` of unknown effect at %s" % (ast.unparse(top)[:60], here))
-        if chained:
-            # an element / attribute is read
-            if flat or kind == "handle":
-                return ("read", "element of a container of immutables")
-            return self.flow(top, m, "object", False, depth, what + " element")
+                if rk in ("container", "copy"):
+                    if meth == "items":
+                        res = ("copy", None if rn is None else rn + 1)
+                    elif meth in ("get", "__getitem__"):
+                        res = self.elem(rk, rn)
+                    else:
+                        res = ("copy", rn)
+                else:
+                    res = ("object", None)
+                if res[0] == "imm" or res[1] in (0, 1):
+                    return ("read", "read-only method .%s() yielding immutables" % meth)
+                return self.flow(p, m, res[0], res[1], depth, what + " via .%s()" % meth)
+            return ("mut", "method `%s(...)` of unknown effect on module-level state at %s" % (ast.unparse(top)[:60], here))
+        if levels > 0:
+            ek, en = self.elem(kind, nest, levels)
+            if ek == "imm":
+                return ("read", "immutable element")
+            return self.flow(top, m, ek, en, depth, what + " element")
         if kind == "iterator":
-            # any consumption of an iterator changes it
-            if isinstance(p, ast.Call) and isinstance(p.func, ast.Name) and p.func.id in ("isinstance", "type", "repr", "id"):
+            if isinstance(p, ast.Call) and isinstance(p.func, ast.Name) and p.func.id in ("isinstance", "type", "repr", "id") and p.func is not node:
                 return ("read", "type test")
             return ("mut", "iterator/stateful object consumed at %s" % here)
         if isinstance(p, ast.Call) and p.func is node:
-            if kind in ("object",):
+            if kind == "object":
                 return ("mut", "call of a module-level callable object (may carry state) at %s" % here)
             return ("read", "called")
-        return self.flow(node, m, kind, flat, depth, what)
+        return self.flow(node, m, kind, nest, depth, what)
 
-    def flow(self, node, m, kind, flat, depth, what):
-        """where does the value of expression `node` go"""
+    def flow(self, node, m, kind, nest, depth, what):
+        """where does the value of expression `node` (a possibly mutable value of the given kind) go"""
+        if kind == "imm" or nest == 0:
+            return ("read", "immutable value")
         p = parent(node)
         here = "%s:%d" % (m.rel, getattr(node, "lineno", 0))
+        elems_imm = kind == "handle" or nest == 1            # whatever is taken OUT of it is immutable
         if p is None:
             return ("escape", "no consumer at " + here)
         if isinstance(p, (ast.Attribute, ast.Subscript)) and p.value is node:
-            return self.use(node, m, kind, flat, depth, what) if False else self.use_as_root(node, m, kind, flat, depth, what)
+            return self.use(node, m, kind, nest, depth + 1, what)       # an expression that is itself the root of a chain
         if isinstance(p, ast.Subscript) and p.slice is node:
             return ("read", "used as an index")
         if isinstance(p, ast.Compare):
             return ("read", "comparison / membership test")
-        if isinstance(p, (ast.BoolOp, ast.UnaryOp)):
-            if isinstance(p, ast.BoolOp) and not isinstance(parent(p), (ast.If, ast.While, ast.IfExp, ast.BoolOp, ast.UnaryOp, ast.Assert)):
-                return ("read", "truth value") if flat or kind == "handle" else self.flow(p, m, kind, flat, depth, what)
+        if isinstance(p, ast.UnaryOp):
             return ("read", "truth value")
+        if isinstance(p, ast.BoolOp):
+            if isinstance(parent(p), (ast.If, ast.While, ast.IfExp, ast.BoolOp, ast.UnaryOp, ast.Assert)) and getattr(parent(p), "test", p) is p:
+                return ("read", "truth value")
+            return self.flow(p, m, kind, nest, depth, what)
         if isinstance(p, (ast.If, ast.While, ast.IfExp, ast.Assert)) and getattr(p, "test", None) is node:
             return ("read", "truth value")
         if isinstance(p, ast.IfExp):
-            return self.flow(p, m, kind, flat, depth, what)
+            return self.flow(p, m, kind, nest, depth, what)
         if isinstance(p, (ast.FormattedValue, ast.JoinedStr)):
             return ("read", "formatted")
         if isinstance(p, ast.Expr):
             return ("read", "value discarded")
         if isinstance(p, (ast.For, ast.AsyncFor)) and p.iter is node:
-            if flat or kind == "handle":
+            if elems_imm:
                 return ("read", "iteration over immutables")
-            return self.target_uses(p.target, p, m, depth, what)
+            ek, en = self.elem(kind, nest)
+            return self.target_uses(p.target, p, m, ek, en, depth, what)
         if isinstance(p, ast.comprehension) and p.iter is node:
-            if flat or kind == "handle":
+            if elems_imm:
                 return ("read", "iteration over immutables")
-            return self.target_uses(p.target, parent(p), m, depth, what)
+            ek, en = self.elem(kind, nest)
+            return self.target_uses(p.target, parent(p), m, ek, en, depth, what)
         if isinstance(p, ast.BinOp):
-            if flat or kind == "handle":
+            if elems_imm or (isinstance(p.op, ast.Mod) and p.right is node):
                 return ("read", "operand")
-            return self.flow(p, m, kind, flat, depth, what)
+            return self.flow(p, m, "copy", nest, depth, what)
         if isinstance(p, ast.Starred):
-            return self.flow(p, m, kind, flat, depth, what)
+            if elems_imm:
+                return ("read", "unpacked immutables")
+            return ("escape", "unpacked with * at " + here)
         if isinstance(p, ast.keyword):
-            return self.arg_flow(parent(p), node, m, kind, flat, depth, what)
+            if p.arg is None:
+                return ("read", "unpacked immutables") if elems_imm else ("escape", "unpacked with ** at " + here)
+            return self.arg_flow(parent(p), node, m, kind, nest, depth, what)
         if isinstance(p, ast.Call):
             if p.func is node:
                 return ("read", "called")
-            return self.arg_flow(p, node, m, kind, flat, depth, what)
+            return self.arg_flow(p, node, m, kind, nest, depth, what)
         if isinstance(p, (ast.Assign, ast.AnnAssign, ast.NamedExpr)) and p.value is node:
             tgs = p.targets if isinstance(p, ast.Assign) else [p.target]
             res = []
@@ -712,60 +789,61 @@ class Analysis:
                     if ok:
                         res.append(("escape", "assigned to the global %s at %s" % (t.id, here)))
                         continue
-                    uses = [u for u in self.var_uses(fn, t.id)]
-                    res += [self.use(u, m, kind, flat, depth + 1, "%s (as local %s)" % (what, t.id)) for u in uses] or [("read", "alias never used")]
+                    uses = self.var_uses(fn, t.id)
+                    res += [self.use(u, m, kind, nest, depth + 1, "%s (as local %s)" % (what, t.id)) for u in uses] or [("read", "alias never used")]
+                elif isinstance(t, (ast.Tuple, ast.List)):
+                    if elems_imm:
+                        res.append(("read", "unpacked immutables"))
+                    else:
+                        fn = next((s for s in self.scopes_of(p) if isinstance(s, FUNC_NODES)), None)
+                        ek, en = self.elem(kind, nest)
+                        res.append(self.target_uses(t, fn, m, ek, en, depth, what) if fn is not None else ("read", "import time"))
                 else:
-                    return ("shared", "stored into `%s` at %s" % (ast.unparse(t)[:50], here), (m, None))
+                    res.append(("shared", "stored into `%s` at %s" % (ast.unparse(t)[:50], here), (m, None)))
             return worst(res)
         if isinstance(p, (ast.Return, ast.Yield, ast.YieldFrom)):
+            if kind == "copy" and elems_imm:
+                return ("read", "fresh copy returned")
             return ("shared", "returned at " + here, (m, None))
         if isinstance(p, (ast.List, ast.Tuple, ast.Set, ast.Dict)):
-            if flat or kind == "handle":
-                return ("read", "element of a new container")
             return ("shared", "put into a new container at " + here, (m, None))
         if isinstance(p, ast.arguments):
             # default value of a parameter: the parameter aliases the module state
             fn = parent(p)
             names = [a.arg for a in p.posonlyargs + p.args]
             pname = None
-            if node in p.defaults:
-                pname = names[len(names) - len(p.defaults) + p.defaults.index(node)]
-            elif node in p.kw_defaults:
-                pname = p.kwonlyargs[p.kw_defaults.index(node)].arg
-            if pname is None or isinstance(fn, ast.Lambda) and False:
+            if any(node is d for d in p.defaults):
+                pname = names[len(names) - len(p.defaults) + [i for i, d in enumerate(p.defaults) if d is node][0]]
+            elif any(node is d for d in p.kw_defaults):
+                pname = p.kwonlyargs[[i for i, d in enumerate(p.kw_defaults) if d is node][0]].arg
+            if pname is None:
                 return ("escape", "default value at " + here)
-            res = [self.use(u, m, kind, flat, depth + 1, "%s (as default of %s)" % (what, pname)) for u in self.var_uses(fn, pname)]
+            res = [self.use(u, m, kind, nest, depth + 1, "%s (as default of %s)" % (what, pname)) for u in self.var_uses(fn, pname)]
             return worst(res) if res else ("read", "default never used")
-        if isinstance(p, (ast.With, ast.withitem)):
+        if isinstance(p, ast.withitem):
             return ("escape", "context manager at " + here)
         return ("escape", "%s at %s" % (type(p).__name__, here))
 
-    def use_as_root(self, node, m, kind, flat, depth, what):
-        """`node` is an expression (not a Name) that is the root of a further attribute/subscript chain"""
-        top = self.top_chain(node)
-        p = parent(top)
-        here = "%s:%d" % (m.rel, getattr(node, "lineno", 0))
-        if isinstance(top.ctx, (ast.Store, ast.Del)) or (isinstance(p, ast.AugAssign) and p.target is top):
-            return ("mut", "assigned `%s` at %s" % (ast.unparse(top)[:60], here))
-        if isinstance(top, ast.Attribute) and isinstance(p, ast.Call) and p.func is top:
-            if top.attr in MUTATORS:
-                return ("mut", "mutating call `%s(...)` at %s" % (ast.unparse(top)[:60], here))
-            if top.attr in READ_METHODS:
-                return ("read", "read-only method") if flat else self.flow(p, m, "object", False, depth + 1, what)
-            return ("mut", "method `%s(...)` of unknown effect at %s" % (ast.unparse(top)[:60], here))
-        return self.flow(top, m, "object", False, depth + 1, what)
-
-    def target_uses(self, target, scope, m, depth, what):
+    def target_uses(self, target, scope, m, kind, nest, depth, what):
+        """uses of the names bound by a loop / unpacking target to values of (kind, nest)"""
+        if kind == "imm" or nest == 0:
+            return ("read", "immutable elements")
         res = []
-        for t in ast.walk(target):
-            if isinstance(t, ast.Name):
-                res += [self.use(u, m, "object", False, depth + 1, "%s (element %s)" % (what, t.id)) for u in self.var_uses(scope, t.id)]
+        if isinstance(target, ast.Name):
+            res += [self.use(u, m, kind, nest, depth + 1, "%s (element %s)" % (what, target.id)) for u in self.var_uses(scope, target.id)]
+        elif isinstance(target, (ast.Tuple, ast.List)):
+            ek, en = self.elem(kind, nest)
+            for t in target.elts:
+                res.append(self.target_uses(t.value if isinstance(t, ast.Starred) else t, scope, m, ek, en, depth, what))
+        else:
+            return ("escape", "loop target `%s`" % ast.unparse(target)[:40])
         return worst(res) if res else ("read", "elements never used")
 
-    def arg_flow(self, call, node, m, kind, flat, depth, what):
+    def arg_flow(self, call, node, m, kind, nest, depth, what):
         here = "%s:%d" % (m.rel, call.lineno)
         f = call.func
         fname = f.id if isinstance(f, ast.Name) else (f.attr if isinstance(f, ast.Attribute) else None)
+        elems_imm = kind == "handle" or nest == 1
         if isinstance(f, ast.Name) and fname == "next" and call.args and call.args[0] is node:
             return ("mut", "next(...) at " + here)
         if fname in DYNAMIC_FUNCS and isinstance(f, ast.Name):
@@ -773,14 +851,19 @@ class Analysis:
         if fname in SCALAR_FUNCS:
             return ("read", "%s(...)" % fname)
         if fname in COPY_FUNCS:
-            if flat or kind == "handle":
+            if elems_imm:
                 return ("read", "%s(...) of immutables" % fname)
-            return self.flow(call, m, "object", False, depth + 1, what)
+            if fname in ("min", "max", "getattr"):
+                ek, en = self.elem(kind, nest)
+                return self.flow(call, m, ek, en, depth + 1, what)
+            if fname in ("enumerate", "zip"):
+                return self.flow(call, m, "copy", None if nest is None else nest + 1, depth + 1, what)
+            if fname in ("map", "filter"):
+                return ("escape", "elements handed to %s(...) at %s" % (fname, here))
+            return self.flow(call, m, "copy", nest, depth + 1, what)
         if isinstance(f, ast.Attribute) and fname in INSERTERS:
-            if flat and kind == "container" and False:
-                return ("read", "")
             return ("shared", "inserted into `%s` at %s" % (ast.unparse(f.value)[:50], here), (m, call))
-        if isinstance(f, ast.Attribute) and fname in ("join", "format", "debug", "info", "warning", "error", "exception", "critical", "log", "write_text"):
+        if isinstance(f, ast.Attribute) and fname in ("join", "format", "debug", "info", "warning", "error", "exception", "critical", "log", "write_text", "write"):
             return ("read", ".%s(...)" % fname)
         cal = self.callee_params(m, call, node)
         if cal is None:
@@ -791,7 +874,7 @@ class Analysis:
         for fn, pname in cal:
             fm = self.mod_of(fn)
             uses = self.var_uses(fn, pname)
-            res += [self.use(u, fm, kind, flat, depth + 1, "%s (as parameter %s of %s)" % (what, pname, getattr(fn, "name", "<lambda>"))) for u in uses]
+            res += [self.use(u, fm, kind, nest, depth + 1, "%s (as parameter %s of %s)" % (what, pname, getattr(fn, "name", "<lambda>"))) for u in uses]
         return worst(res) if res else ("read", "parameter never used")
 
     def mod_of(self, node):
@@ -805,9 +888,6 @@ class Analysis:
     # ------------------------------------------------------------------ driver
     def run(self):
         self._locals = {}
-        allb = []
-        for m in self.mods.values():
-            allb += list(m.bindings.values()) + list(m.classattrs.values())
         # 1. every reference to a module-level name from code that runs after import
         for m in self.mods.values():
             for n in ast.walk(m.tree):
@@ -858,9 +938,27 @@ class Analysis:
                     fns = [s for s in self.scopes_of(n) if isinstance(s, FUNC_NODES)]
                     if b is not None and fns:
                         b.results.append(("mut", "rebound through the module at %s:%d" % (m.rel, n.lineno)))
+        # 1b. default values that are module state (evaluated at import, used by the function at every call)
+        for m in self.mods.values():
+            for fn in ast.walk(m.tree):
+                if not isinstance(fn, FUNC_NODES):
+                    continue
+                a = fn.args
+                names = [x.arg for x in a.posonlyargs + a.args]
+                pairs = list(zip(names[len(names) - len(a.defaults):], a.defaults)) + [(k.arg, d) for k, d in zip(a.kwonlyargs, a.kw_defaults) if d is not None]
+                for pname, d in pairs:
+                    k = self.kind_of(d, m)
+                    if k[0] == "alias" and not [x for x in self.scopes_of(d) if isinstance(x, FUNC_NODES)]:
+                        root = k[2]
+                        while root.alias_of is not None:
+                            root = root.alias_of
+                        root.nuses += 1
+                        for u in self.var_uses(fn, pname):
+                            root.results.append(self.use(u, m, root.kind, root.nest, 1, "%s (as default of %s)" % (root.qual, pname)))
         # 2. sites
-        for b in allb:
-            self.site_for(b)
+        for m in self.mods.values():
+            for b in list(m.bindings.values()) + list(m.classattrs.values()):
+                self.site_for(b)
         self.memo_sites()
         self.default_sites()
         for rel, line, what in self.dynamic:
@@ -876,7 +974,7 @@ class Analysis:
             b = Binding(m, name)
             b.line = node.lineno
             b._kinded = True
-            b.kind, b.flat, b.note = "imm", True, "created by a function through `global`"
+            b.kind, b.nest, b.note = "imm", 0, "created by a function through `global`"
             m.bindings[name] = b
         return b
 
@@ -893,7 +991,7 @@ class Analysis:
         root = b
         while root.alias_of is not None:
             root = root.alias_of
-        kind, flat = b.kind, b.flat
+        kind, nest = b.kind, b.nest
         if kind in ("imm",) and not any(isinstance(v, (ast.FunctionDef, ast.AsyncFunctionDef, ast.ClassDef)) for _, v in b.values):
             return
         if kind == "imm":
@@ -902,7 +1000,7 @@ class Analysis:
             if top is not node and (isinstance(top.ctx, (ast.Store, ast.Del)) or (isinstance(parent(top), ast.AugAssign) and parent(top).target is top)):
                 root.results.append(("mut", "attribute `%s` of a module-level function/class assigned at %s:%d" % (ast.unparse(top)[:50], m.rel, node.lineno)))
             return
-        r = self.use(node, m, kind, flat, 0, b.qual)
+        r = self.use(node, m, kind, nest, 0, b.qual)
         root.results.append(r)
         if root is not b:
             b.results.append(r)
